@@ -306,7 +306,8 @@ macro_rules! glue {
                 Iterator::next(self)
             }
             fn st(&mut self) -> &mut $crate::St {
-                self.0.state()
+                // only the documented handle API is used (no access to generated fields)
+                self.state()
             }
         }
 
